@@ -183,6 +183,10 @@ class SymL:
         i = self.var(name)
         return z3.Exists([i], z3.And(_z(lo) <= i, i < _z(hi), self.b(f(i))))
 
+    def exists2(self, r1, r2, f):
+        i, j = self.var('e'), self.var('e')
+        return z3.Exists([i, j], z3.And(_z(r1[0]) <= i, i < _z(r1[1]), _z(r2[0]) <= j, j < _z(r2[1]), self.b(f(i, j))))
+
     def forall_sort(self, kinds, f):
         vs = [self.var('x', k) for k in kinds]
         return z3.ForAll(vs, self.b(f(*vs)))
@@ -354,6 +358,9 @@ class ConL:
 
     def exists(self, lo, hi, f, name='e'):
         return any(bool(f(i)) for i in range(int(lo), int(hi)))
+
+    def exists2(self, r1, r2, f):
+        return any(bool(f(i, j)) for i in range(int(r1[0]), int(r1[1])) for j in range(int(r2[0]), int(r2[1])))
 
     def len(self, a):
         return len(a)
